@@ -332,6 +332,22 @@ Theorem c07_pow_accept_separates : forall hash c1 c2,
   pow_verify hash c2 = true /\ pow_verify hash c1 = false.
 Proof. exact pow_accept_separates. Qed.
 
+(* the work of a block *)
+Theorem c07_compact_to_difficulty_total : forall c, exists d, compact_to_difficulty c = Some d.
+Proof. exact compact_to_difficulty_total. Qed.
+
+Theorem c07_target_to_difficulty_antitone : forall t1 t2 d1 d2,
+  1 <= t1 -> t1 <= t2 -> t2 < W256 ->
+  target_to_difficulty t1 = Some d1 -> target_to_difficulty t2 = Some d2 ->
+  1 <= d2 /\ d2 <= d1 /\ d1 < W256.
+Proof. exact target_to_difficulty_antitone. Qed.
+
+Theorem c07_compact_to_difficulty_antitone : forall c1 c2,
+  canonicalb c1 = true -> canonicalb c2 = true -> c1 <> 0 -> c1 <= c2 ->
+  exists d1 d2, compact_to_difficulty c1 = Some d1 /\ compact_to_difficulty c2 = Some d2 /\
+                1 <= d2 /\ d2 <= d1 /\ d1 < W256.
+Proof. exact compact_to_difficulty_antitone. Qed.
+
 Theorem c07_compact_examples :
   canonicalb DIFF_TWO = true /\ compact_to_target DIFF_TWO = (2 ^ 255, false) /\
   compact_to_difficulty DIFF_TWO = Some 2 /\ difficulty_to_compact 2 = Some DIFF_TWO /\
@@ -443,6 +459,9 @@ Redirect "out/C07.c07_pow_accept_iff" Print Assumptions c07_pow_accept_iff.
 Redirect "out/C07.c07_pow_accept_downward_closed" Print Assumptions c07_pow_accept_downward_closed.
 Redirect "out/C07.c07_pow_accept_monotone_in_compact" Print Assumptions c07_pow_accept_monotone_in_compact.
 Redirect "out/C07.c07_pow_accept_separates" Print Assumptions c07_pow_accept_separates.
+Redirect "out/C07.c07_compact_to_difficulty_total" Print Assumptions c07_compact_to_difficulty_total.
+Redirect "out/C07.c07_target_to_difficulty_antitone" Print Assumptions c07_target_to_difficulty_antitone.
+Redirect "out/C07.c07_compact_to_difficulty_antitone" Print Assumptions c07_compact_to_difficulty_antitone.
 Redirect "out/C07.c07_compact_examples" Print Assumptions c07_compact_examples.
 Redirect "out/C07.c07_number_with_fraction_successor_same_epoch" Print Assumptions c07_number_with_fraction_successor_same_epoch.
 Redirect "out/C07.c07_number_with_fraction_successor_next_epoch" Print Assumptions c07_number_with_fraction_successor_next_epoch.
